@@ -17,11 +17,14 @@ static hwloc_bitmap_t in_set_or_null(unsigned long *wp, int *nullp)
 }
 
 /* ---- hwloc_topology_allow ------------------------------------------------------------------------------------ */
+#ifndef INCL
+#define INCL 1
+#endif
 static unsigned long hook_c, hook_n; static int hook_calls;
 static int vp_allowed_hook(hwloc_topology_t t) { hook_calls++; hwloc_bitmap_from_ulong(t->allowed_cpuset, hook_c); hwloc_bitmap_from_ulong(t->allowed_nodeset, hook_n); return 0; }
 VP_HARNESS(h_allow)
 {
-  int incl = vp_in_bool();
+  int incl = INCL;         /* compile-time: the flag decides which objects the core keeps while building the seed */
   T = vp_seed_build(4, incl ? HWLOC_TOPOLOGY_FLAG_INCLUDE_DISALLOWED : 0); S = vp_seed;
   hwloc_obj_t root = T->levels[0][0];
   unsigned long rc = vp_w(root->cpuset), rn = vp_w(root->nodeset), rcc = vp_w(root->complete_cpuset), rcn = vp_w(root->complete_nodeset);
@@ -54,9 +57,13 @@ VP_HARNESS(h_allow)
     VP_CHECK(r == -1 && (errno == EINVAL || errno == ENOSYS), "allow fails with EINVAL or ENOSYS");
     VP_CHECK(nac == ac && nan == an, "a failing allow leaves every observable attribute unchanged");
   }
+#if !INCL
+  VP_WITNESS_IF(r == -1 && errno == EINVAL && flags == HWLOC_ALLOW_FLAG_ALL && loaded, "allow(ALL) refused without INCLUDE_DISALLOWED");
+#else
   VP_WITNESS_IF(r == 0 && flags == HWLOC_ALLOW_FLAG_CUSTOM && !nc && !nn && nac == 0x4, "custom cpuset and nodeset accepted");
   VP_WITNESS_IF(r == -1 && flags == HWLOC_ALLOW_FLAG_CUSTOM && !nc && !nn && (rc & qc) && !(rn & qn), "valid cpuset with a nodeset outside the topology");
   VP_WITNESS_IF(r == 0 && flags == HWLOC_ALLOW_FLAG_LOCAL_RESTRICTIONS, "local restrictions from the hook");
+#endif
 }
 
 /* ---- infos family from an arbitrary valid table ------------------------------------------------------------------ */
@@ -114,15 +121,26 @@ VP_HARNESS(h_infos_growth)
 }
 
 /* ---- Misc insertion and Group allocation/insertion: argument phase ---------------------------------------------------- */
+#ifndef WHICH
+#define WHICH 0
+#endif
+#ifndef LOADED
+#define LOADED 1
+#endif
+#ifndef GC
+#define GC 0           /* refusal case of insert_group: 0 Groups filtered out, 1 no set given, 2 a set outside the topology */
+#endif
 VP_HARNESS(h_misc_group_args)
 {
   T = vp_seed_build(1, 0); S = vp_seed;
-  int loaded = vp_in_bool(); int mfilter = (int) vp_in_range(0, 3), gfilter = (int) vp_in_range(0, 3);
+  /* the loaded state is symbolic for the Misc case; for Groups it is a compile-time constant: alloc_group returns
+   * loaded ? object : NULL, and a pointer that may be NULL makes every field read through it an unknown for symex */
+  int loaded = WHICH == 0 ? vp_in_bool() : LOADED; int mfilter = (int) vp_in_range(0, 3), gfilter = (int) vp_in_range(0, 3);
   if (!loaded) T->state &= ~HWLOC_TOPOLOGY_STATE_IS_LOADED;
   T->type_filter[HWLOC_OBJ_MISC] = (enum hwloc_type_filter_e) mfilter; T->type_filter[HWLOC_OBJ_GROUP] = (enum hwloc_type_filter_e) gfilter;
   unsigned nroot = T->levels[0][0]->arity; unsigned long rc = S.cpus; uint64_t gpn = T->next_gp_index;
-  int which = vp_in_bool();
-  if (which == 0) {
+#if WHICH == 0       /* compile-time: Misc insertion (0) or Group allocation + refused insertion (1) */
+  {
     errno = 0;
     hwloc_obj_t m = hwloc_topology_insert_misc_object(T, S.pu[0], "m");
     if (!loaded || mfilter == HWLOC_TYPE_FILTER_KEEP_NONE) VP_CHECK(m == NULL && errno == EINVAL && S.pu[0]->misc_first_child == NULL, "insert_misc: unloaded topology or filtered-out Misc -> EINVAL, nothing attached");
@@ -130,25 +148,40 @@ VP_HARNESS(h_misc_group_args)
       VP_CHECK(m->gp_index == gpn && T->next_gp_index == gpn + 1, "insert_misc: a fresh gp_index");
       VP_CHECK(T->slevels[HWLOC_SLEVEL_MISC].nbobjs == 1 && T->slevels[HWLOC_SLEVEL_MISC].objs[0] == m && m->depth == HWLOC_TYPE_DEPTH_MISC, "insert_misc: the Misc level is rebuilt"); }
     VP_WITNESS_IF(m != NULL, "a Misc object inserted");
-  } else {
+  }
+#else
+  {
     errno = 0;
     hwloc_obj_t g = hwloc_topology_alloc_group_object(T);
     if (!loaded) VP_CHECK(g == NULL && errno == EINVAL, "alloc_group: unloaded topology -> EINVAL");
     else {
       VP_CHECK(g && g->type == HWLOC_OBJ_GROUP, "alloc_group gives a Group");
       /* a Group without any set, or with sets that are empty after clipping to the topology, is rejected and freed */
-      unsigned long q = vp_in64(); VP_ASSUME(q < 256); int give = vp_in_bool();
-      if (give) g->cpuset = vp_bm(q);
-      /* stated bound: only the refusal paths are explored here; a successful insertion restructures the
-       * tree (insertion step: C01 insert harness) */
-      VP_ASSUME(gfilter == HWLOC_TYPE_FILTER_KEEP_NONE || !give || !(q & rc));
-      errno = 0;
-      hwloc_obj_t res = hwloc_topology_insert_group_object(T, g);
-      if (gfilter == HWLOC_TYPE_FILTER_KEEP_NONE || !give || !(q & rc)) {
-        VP_CHECK(res == NULL && errno == EINVAL, "insert_group: filtered-out Groups, no set, or a set outside the topology -> EINVAL");
-        VP_CHECK(T->levels[0][0]->arity == nroot && T->nb_levels == 3 && vp_w(T->levels[0][0]->cpuset) == rc, "insert_group: a refused Group leaves the hierarchy untouched");
+      /* stated bound: only the refusal paths are explored here, one per compile-time case (a successful insertion
+       * restructures the tree: C01 insert harness). The set of case 2 is masked, not assumed, so that symex sees an
+       * empty intersection with the topology (0x27) and does not walk the insertion */
+      static const unsigned long outside[6] = { 0x08, 0x10, 0x40, 0x80, 0xD8, 0x18 };     /* no bit of the topology (0x27) */
+      unsigned sel = (unsigned) vp_in_range(0, 5); int give = GC == 1 ? 0 : GC == 2 ? 1 : vp_in_bool();
+      if (GC == 0) { VP_ASSUME(gfilter == HWLOC_TYPE_FILTER_KEEP_NONE); T->type_filter[HWLOC_OBJ_GROUP] = HWLOC_TYPE_FILTER_KEEP_NONE; gfilter = HWLOC_TYPE_FILTER_KEEP_NONE; }
+      /* the set is picked among concrete candidates, each inserted in its own guarded run: symex then sees the empty
+       * intersection with the topology and does not walk the insertion (it has no way to learn it from a mask or an
+       * assumption on a symbolic word) */
+      hwloc_obj_t res = (hwloc_obj_t) 1; int done = 0;
+      for (unsigned k = 0; k < 6; k++) if (sel == k) {
+        if (k > 0) { g = hwloc_topology_alloc_group_object(T); VP_NONNULL(g); }
+        if (give) g->cpuset = vp_bm(GC == 2 ? outside[k] : (0x01UL << k));
+        errno = 0;
+        res = hwloc_topology_insert_group_object(T, g); done = 1;
       }
+      VP_CHECK(done, "one case executed");
+      VP_CHECK(res == NULL && errno == EINVAL, "insert_group: filtered-out Groups, no set, or a set outside the topology -> EINVAL");
+      VP_CHECK(T->levels[0][0]->arity == nroot && T->nb_levels == 3 && vp_w(T->levels[0][0]->cpuset) == rc, "insert_group: a refused Group leaves the hierarchy untouched");
     }
+#if LOADED
     VP_WITNESS_IF(g != NULL, "a Group allocated");
+#else
+    VP_WITNESS_IF(g == NULL, "alloc_group refused on an unloaded topology");
+#endif
   }
+#endif
 }
